@@ -24,11 +24,11 @@ def main():
     ap.add_argument("dir"); ap.add_argument("prop")
     ap.add_argument("--skip-tests", action="store_true"); ap.add_argument("--skip-demo", action="store_true")
     ap.add_argument("--tier", default="quick"); ap.add_argument("--jobs", default="8")
-    ap.add_argument("--needs", default=None); ap.add_argument("--seed", default="0")
+    ap.add_argument("--private", action="store_true", help="always use a private scratch path (round 4: seeding agents may still be alive)"); ap.add_argument("--needs", default=None); ap.add_argument("--seed", default="0")
     a = ap.parse_args()
     d = os.path.abspath(a.dir)
     wt = "/tmp/seed_%s" % a.prop  # the path the seeding agent used (some round-1 demos assert it)
-    if os.path.exists(wt):          # another validation of the same property is running: use a private path
+    if a.private or os.path.exists(wt):          # another validation of the same property is running: use a private path
         wt = "/tmp/seed_%s_%d" % (a.prop, os.getpid())
     sh(["git", "-C", "/repo", "worktree", "prune"])
     meta_path = os.path.join(d, "meta.json")
